@@ -4,6 +4,7 @@ package main
 
 import (
 	"fmt"
+	"go/constant"
 	"go/token"
 	"go/types"
 	"os"
@@ -721,6 +722,45 @@ func (ex *Exec) enterLoop(b *ssa.BasicBlock, l *Loop, conds []Term, heaps []*Hea
 		v := ex.havocVal(fmt.Sprintf("%s_loop%d_%s", ex.fn.Name(), l.ordinal, name), phi.Type(), reach)
 		ex.vals[phi] = v
 		ls.phis[phi] = v
+		// a counter that starts at a constant and is only ever incremented by a positive constant (the index of a
+		// range loop: -1, then +1 per iteration) never falls below its start - in mathematical integers
+		if v.Sort == sInt && len(phi.Edges) == 2 {
+			for k := 0; k < 2; k++ {
+				c0, isC := phi.Edges[k].(*ssa.Const)
+				inc, isB := phi.Edges[1-k].(*ssa.BinOp)
+				if !isC || !isB || c0.Value == nil || inc.Op != token.ADD || inc.X != ssa.Value(phi) {
+					continue
+				}
+				step, isStep := inc.Y.(*ssa.Const)
+				if !isStep || step.Value == nil {
+					continue
+				}
+				if sv, ok := constant.Int64Val(step.Value); ok && sv > 0 {
+					if c, ok := constant.Int64Val(c0.Value); ok {
+						q.assume(implies(reach, le(tInt(c), v)))
+						// ... and when the loop continues only while counter+step < len(x), for a length taken before
+						// the loop, it stays below that length (range loops: index < len)
+						if c == -1 && sv == 1 {
+							for _, j := range b.Instrs {
+								cmp, isCmp := j.(*ssa.BinOp)
+								if !isCmp || cmp.Op != token.LSS || cmp.X != ssa.Value(inc) {
+									continue
+								}
+								lc, isCall := cmp.Y.(*ssa.Call)
+								if !isCall || l.body[lc.Block()] {
+									continue
+								}
+								if bi, isB := lc.Call.Value.(*ssa.Builtin); isB && bi.Name() == "len" {
+									if lv, has := ex.vals[lc]; has && lv.Sort == sInt {
+										q.assume(implies(reach, lt(v, lv)))
+									}
+								}
+							}
+						}
+					}
+				}
+			}
+		}
 	}
 	// 3. havoc heap
 	var blocks []*ssa.BasicBlock
